@@ -143,13 +143,33 @@ func (fdb *fsDb) Put(ctx context.Context, key []byte, val []byte) error {
 	}
 	logg.TraceCtxf(ctx, "fs put", "key", key, "lk", lk, "flk", flk, "val", val)
 	if flk.Translation != "" {
-		err = ioutil.WriteFile(flk.Translation, val, 0600)
-		if err != nil {
-			return err
-		}
-		return nil
+		return fdb.writeFile(flk.Translation, val)
 	}
-	return ioutil.WriteFile(flk.Default, val, 0600)
+	return fdb.writeFile(flk.Default, val)
+}
+
+// write the complete value to a temporary file in the same directory and rename it into place,
+// so that a reader (or a restart after a crash) finds either the previous or the new content.
+func (fdb *fsDb) writeFile(fp string, val []byte) error {
+	f, err := ioutil.TempFile(fdb.dir, ".tmp-")
+	if err != nil {
+		return err
+	}
+	tmp := f.Name()
+	_, err = f.Write(val)
+	if err == nil {
+		err = f.Sync()
+	}
+	if cerr := f.Close(); err == nil {
+		err = cerr
+	}
+	if err == nil {
+		err = os.Rename(tmp, fp)
+	}
+	if err != nil {
+		os.Remove(tmp)
+	}
+	return err
 }
 
 // Close implements the Db interface.
